@@ -33,7 +33,17 @@ def r01_1_2(ctx, fx):
     ver = fn.calls(r"crypto::RemotePublicKey::verify$")
     ctx.anchor("R01.1", "RemotePublicKey::verify call", len(ver), 1, cfg=fx.cfg)
     if not ver:
+        cl = [short(k) + k[k.index("::{closure"):] for k in fx.find(r"^crypto::noise::parse_and_verify_peer_id::\{closure") if fx.fn(k).calls(r"crypto::RemotePublicKey::verify$")]
+        ctx.ob("R01.1", "parse_and_verify_peer_id/Ok-only-over-verify==true", False, site=fn.site(fn.entry), cfg=fx.cfg,
+               detail="no call of RemotePublicKey::verify lies on the paths to the Ok exit (verify is called from: %s); if the check runs "
+                      "only inside an Option/Result combinator, a missing signature or key skips it" % (cl or "nowhere"))
         return
+    # a missing signature / key is an error before verification: both options are unwrapped with ok_or(..)? in this body
+    for fld, what in (("identity_sig", "signature"), ("identity_key", "identity key")):
+        oo = [c for c in fn.calls(r"option::Option(<.*>)?::ok_or(_else)?$") if ("." + fld) in fn.origin(c.args[0]) or any(x.startswith("param:_1." + fld) for x in guards.rootstrs(fn, c.args[0]))]
+        used = bool(oo) and any(("call", c.name) in fn.roots(a) for c in oo for a in ver[0].args)
+        ctx.ob("R01.1", "parse_and_verify_peer_id/missing-%s-is-an-error" % fld, used, site=fn.site(oo[0].node) if oo else fn.site(fn.entry), cfg=fx.cfg,
+               detail="the %s handed to verify must be the payload of `payload.%s.ok_or(..)?`: None can then only reach the Err exit" % (what, fld))
     v = ver[0]
     tests = fn.bool_tests(v.dest[0])
     ctx.anchor("R01.1", "branch on verify result", len(tests), 1, cfg=fx.cfg)
